@@ -15,20 +15,37 @@ MANIFEST = dict(
           "hypothesis sd*sd == variance), one-pass variance >= 0 (the clamp is an identity in exact arithmetic), batch "
           "independence, and the affine conversion W'x+b' = upscale_t(W scale_f(x)+b). The integer guards of the model "
           "are regenerated from the source on every run; the extracted model is compared with the real library within "
-          "the rounding tolerance relative to the summed terms on random datasets with degenerate columns; the "
-          "floating-point behaviour itself (NaN, rounding) is searched, not proved."),
-    note=("Coq kernel; translator (14 integer kernels of stats.cpp); extraction with ExtrOcamlZBigInt (Zarith); harness "
-          "against the library built from the working tree + OCaml driver; sqrt is not modelled (m_stdev is taken from "
-          "the run and checked against the exact variance); float rounding is outside the theorems."),
-    technique="Coq proof over Q of a translated+extracted model, differential correspondence within rounding tolerance, "
-              "direct property oracles on the implementation",
+          "the rounding tolerance relative to the summed terms on random datasets with degenerate columns. "
+          "EXTENSION (floating point, C14_FloatDefs.v / C14_Float.v): a binary64 twin of the scalar code (update, done incl. "
+          "sqrt, scale + nan2zero, upscale, make_scaling, the element-wise part of nano::upscale) written as polymorphic shapes "
+          "whose integer instance is proved equal (syntactically) to 25 expression kernels translated from stats.cpp on every "
+          "run, extracted and compared BIT FOR BIT with the library on every statistic, every scaled / up-scaled value and every "
+          "up-scaled weight; and theorems in the standard model of binary64 arithmetic (Flocq; rnd = round-to-nearest-even "
+          "FLT(-1074,53), u = 2^-53), bridged to the twin through Flocq.IEEE754.PrimFloat: round trip |upscale(scale(x)) - x| <= "
+          "(5|x|+4|offset|)u(1+3u) + 2^-1074(mul+1) for every record of done(), every mode and every finite x without overflow "
+          "(underflow allowed); div = 1.0/mul bit for bit and mul > 0; min-max scaling maps [min,max] INTO [0,1] exactly, min -> 0, "
+          "max -> [1-u,1]; no NaN: all statistics finite, stdev >= 0, (de)normalisers > 0 when the sums do not overflow; "
+          "summation in ANY order within ((1+u)^(n-1)-1) sum|p_i|; the bias of nano::upscale within ((1+u)^(C+4)-1) M/|tw| and "
+          "each weight within (2u+u^2) relative of the exact conversion, hence the converted model's prediction within the sum of "
+          "both of the exact up-scaled model (no underflow). The harness / driver check these PROVED bounds (exact rational "
+          "arithmetic) on the implementation's values instead of the former empirical tolerances."),
+    note=("Coq kernel + standard axioms of the reals / classical logic + FloatAxioms (primitive floats = IEEE binary64); Flocq 4.1; "
+          "translator (14 integer kernels + 25 floating-point expression shapes of stats.cpp); extraction with ExtrOcamlZBigInt "
+          "(Zarith) + ExtrOCamlFloats / ExtrOCamlInt63 (coq-core.kernel); harness against the library built from the working tree + "
+          "OCaml driver; g++ -O2 x86-64 SSE2 without FMA contraction (bit-exactness of the twin is re-established on every run); "
+          "still searched only: accuracy of mean / stdev w.r.t. the exact statistics, zero mean / [-1,1] range / unit deviation in "
+          "floating point, the library's own floating-point scale/upscale inside the long-double prediction check, Eigen's product."),
+    technique="Coq proof over Q of a translated+extracted model, Flocq proofs of the rounding-error bounds for a bit-exact PrimFloat "
+              "twin, differential correspondence (exact / bit for bit / proved tolerance), direct property oracles on the implementation",
     design="DESIGN.md section 2, C14")
 
 VARIANTS = ["rel"]
 
 CHUNKS = {"quick": (1, 1000), "thorough": (48, 1000)}   # (chunks, cases per chunk); chunk id perturbs the seed
 COUNTERS = ("corpus_cases", "cases", "columns", "values", "pred_rows", "rt_values", "missing_values", "categorical_columns", "constant_columns",
-            "single_columns", "empty_columns", "guard_range_columns", "guard_stdev_columns", "meta_columns")
+            "single_columns", "empty_columns", "guard_range_columns", "guard_stdev_columns", "meta_columns", "fsc_lines", "fsc_values")
+# counters of the driver's twin stage (MODEL-DONE line)
+TWIN_COUNTERS = ("twin_values", "bound_values", "minmax_values", "chain_overflow", "bias_bound", "bias_fallback", "finite_cols", "pred_bound", "propfails")
 
 
 def _build_driver():
@@ -53,7 +70,9 @@ def _build_driver():
         with open(os.path.join(bd, "driver_main.ml"), "w") as f:
             f.write("open C14_model\n# 1 \"c14_driver.ml\"\n")
             f.write(open(driver).read())
-        cmd = "ocamlfind ocamlopt -w -a -package zarith -linkpkg c14_model.mli c14_model.ml driver_main.ml -o %s" % shlex.quote(exe)
+        # extension: the module also contains the PrimFloat twin (Float64 / Uint63 of coq-core.kernel)
+        cmd = ("ocamlfind ocamlopt -w -a -rectypes -package zarith,coq-core.kernel -thread -linkpkg c14_model.mli c14_model.ml "
+               "driver_main.ml -o %s" % shlex.quote(exe))
         rc, out = vlib.sh(cmd, cwd=bd, timeout=600)
         if rc != 0:
             raise vlib.CheckError("ocaml build of c14_driver failed:\n%s" % out[-3000:])
@@ -103,15 +122,15 @@ def _replay(path):
     if m:
         rc, out = vlib.sh([exe, "column", m.group(1)], timeout=600)
         drv = _build_driver()
-        rc2, mout = vlib.sh([drv], input="\n".join(l for l in out.split("\n") if l.startswith(("CONST ", "COL ", "SC ", "AFF "))) + "\n")
-        bad = [l for l in out.split("\n") if l.startswith("FAIL ")] + [l for l in mout.split("\n") if l.startswith("MISMATCH")]
+        rc2, mout = vlib.sh([drv], input="\n".join(l for l in out.split("\n") if l.startswith(("CONST ", "COL ", "SC ", "FSC ", "AFF "))) + "\n")
+        bad = [l for l in out.split("\n") if l.startswith("FAIL ")] + [l for l in mout.split("\n") if l.startswith(("MISMATCH", "PROPFAIL"))]
         print("\n".join(l[:1000] for l in bad[:10]) or "column replay: no failure")
         if bad:
             print("VIOLATION property=C14 replay=%s" % path)
         return 1 if bad else 0
     cmd = d.get("replay_cmd")
     if cmd:
-        rc, out = vlib.sh(cmd + " | grep -E '^(FAIL|MISMATCH)' | cut -c1-1000 | head -10", timeout=3000)
+        rc, out = vlib.sh(cmd + " | grep -E '^(FAIL|MISMATCH|PROPFAIL)' | cut -c1-1000 | head -10", timeout=3000)
         print(out or "replay: no failure")
         if out.strip():
             print("VIOLATION property=C14 replay=%s" % path)
@@ -134,6 +153,7 @@ def run(tier, replay=None):
         if cres["ok"]:
             raise
     impl_fail, mism = [], []          # (chunk, line)
+    drv_fail = []                     # (chunk, "FAIL fl-<clause> ...") from the driver's proved-bound oracles
     byid = {}                         # (chunk, "COL 3.f2") -> implementation line, only for mismatching ids
     ops = collections.Counter()
     totals = collections.Counter()
@@ -148,10 +168,10 @@ def run(tier, replay=None):
         lines = [l for l in out.split("\n") if l]
         del out
         done = [l for l in lines if l.startswith("DONE ")]
-        oplines = [l for l in lines if l.startswith(("COL ", "SC ", "AFF "))]
+        oplines = [l for l in lines if l.startswith(("COL ", "SC ", "FSC ", "AFF "))]
         for l in lines:
             op = l.split(" ", 1)[0]
-            if op in ("COL", "SC", "AFF", "FAIL"):
+            if op in ("COL", "SC", "FSC", "AFF", "FAIL"):
                 ops[op] += 1
         impl_fail += [(ch, l) for l in lines if l.startswith("FAIL ")]
         evaluations += len(oplines)
@@ -174,16 +194,23 @@ def run(tier, replay=None):
                       [l[:600] for l in lines if l.startswith("AFF ") and len(l) < 600][:1] or [l[:400] for l in lines[:3]]
         # correspondence with the extracted model
         if drv:
-            feed = "\n".join(l for l in lines if l.startswith(("CONST ", "COL ", "SC ", "AFF "))) + "\n"
+            feed = "\n".join(l for l in lines if l.startswith(("CONST ", "COL ", "SC ", "FSC ", "AFF "))) + "\n"
             rc2, mout = vlib.sh([drv], input=feed, timeout=3000)
             del feed
             got = 0
             cm = []
             for l in mout.split("\n"):
-                if l.startswith(("MISMATCH", "PROPFAIL")):
+                if l.startswith("MISMATCH"):
                     cm.append(l)
+                elif l.startswith("PROPFAIL "):
+                    # a PROVED floating-point bound violated by the implementation's own values (exact rational check in the
+                    # driver, independent of the model): same protocol as the harness' FAIL lines; the replay is the driver pipe
+                    drv_fail.append((ch, "FAIL " + l[len("PROPFAIL "):]))
                 elif l.startswith("MODEL-DONE"):
                     got = int(l.split("checked=")[1].split()[0])
+                    for k, v in _kv(l).items():
+                        if k in TWIN_COUNTERS:
+                            totals[k] += int(v)
             checked += got
             if rc2 != 0 or (not got and oplines):
                 r.violation("driver", {"kind": "model driver failed", "out": mout[-2000:], "replay_cmd": cmd_of(ch) + " | " + drv},
@@ -197,6 +224,7 @@ def run(tier, replay=None):
             mism += [(ch, l) for l in cm]
         del lines, oplines
     # direct property oracle on the implementation: one violation per clause (shortest case of the clause)
+    impl_fail += drv_fail
     seen = set()
     for ch, l in impl_fail:
         clause = l.split(" ", 2)[1]
@@ -207,7 +235,8 @@ def run(tier, replay=None):
         sch, shortest = min(same, key=lambda cx: len(cx[1]))
         r.violation("impl-%s" % clause, {"kind": "direct property check failed on the implementation", "clause": clause,
                                          "case": shortest[:6000], "failures_of_this_clause": len(same),
-                                         "replay_cmd": cmd_of(sch) + " | grep '^FAIL %s'" % clause})
+                                         "replay_cmd": (cmd_of(sch) + " | %s | grep '^PROPFAIL %s'" % (drv, clause)) if clause.startswith("fl-")
+                                         else cmd_of(sch) + " | grep '^FAIL %s'" % clause})
     kinds = set()
     for ch, l in mism:
         kind = l.split(" ", 2)[1]
@@ -225,10 +254,15 @@ def run(tier, replay=None):
                     no_input=not impl_fail and not kind.startswith(("stats", "scale-nonfinite", "affine-nonfinite")))
     vlib.handle_coq_failure(r, cres)
     vlib.proof_coverage(r, cres, "make -C coq theories/Properties_C14.vo && coqc theories/Properties_C14.v (Print Assumptions)",
-                        ["tools/translate.py (13 integer kernels of src/dataset/stats.cpp + idiv)",
-                         "extraction: ExtrOcamlBasic + ExtrOcamlZBigInt (positive/Z mapped to Zarith big integers)",
-                         "ocaml/c14_driver.ml (exact double->Q conversion, tolerances), harness/c14_scaling.cpp, g++ -O2",
-                         "sqrt of done() is not modelled: m_stdev is read from the run and checked against the exact variance"])
+                        ["tools/translate.py (13 integer kernels of src/dataset/stats.cpp + idiv; 25 floating-point expression shapes "
+                         "translated over Z and proved to be the Z instance of the shapes the PrimFloat twin instantiates)",
+                         "extraction: ExtrOcamlBasic + ExtrOcamlZBigInt (positive/Z mapped to Zarith big integers) + ExtrOCamlFloats / "
+                         "ExtrOCamlInt63 (primitive floats / 63-bit integers mapped to OCaml's native floats / Uint63 of coq-core.kernel)",
+                         "Flocq 4.1.0 (standard model of binary64, IEEE754.PrimFloat bridge), FloatAxioms of Coq's primitive floats",
+                         "ocaml/c14_driver.ml (exact double->Q conversion, tolerances, exact evaluation of the proved bounds), "
+                         "harness/c14_scaling.cpp, g++ -O2 (x86-64 SSE2, no FMA: the twin is compared bit for bit on every run)",
+                         "exact-rational model: sqrt of done() is not modelled there (m_stdev is read from the run and checked against "
+                         "the exact variance); the PrimFloat twin does model it (IEEE sqrt) and is compared bit for bit"])
     cov = r.coverage
     cov["evaluations"] = evaluations
     cov["correspondence_lines_checked"] = checked
@@ -243,6 +277,15 @@ def run(tier, replay=None):
     cov["chunks"] = nchunks
     for k in COUNTERS:
         cov[k] = totals[k]
+    cov["twin_stage"] = {"values_compared_bit_for_bit_with_the_PrimFloat_twin": totals["twin_values"],
+                         "values_checked_against_the_proved_roundtrip_bound": totals["bound_values"],
+                         "values_checked_against_the_proved_minmax_range": totals["minmax_values"],
+                         "values_outside_the_theorem_hypotheses_(overflow_in_the_chain)": totals["chain_overflow"],
+                         "biases_checked_against_the_proved_g(C+4)_bound": totals["bias_bound"],
+                         "biases_with_undecidable_no_underflow_hypothesis_(empirical_tolerance_only)": totals["bias_fallback"],
+                         "columns_checked_against_the_proved_finiteness_of_the_statistics": totals["finite_cols"],
+                         "probe_predictions_checked_against_the_proved_prediction_bound": totals["pred_bound"],
+                         "proved_bound_violations": totals["propfails"]}
     cov["column_kind_histogram"] = {KIND_NAMES[int(k)]: v for k, v in hists["kinds"].items() if int(k) < len(KIND_NAMES)}
     ph = collections.Counter()
     for k, v in hists["patterns"].items():
@@ -256,11 +299,21 @@ def run(tier, replay=None):
     cov["impl_direct_failures"] = len(impl_fail)
     cov["samples"] = samples
     cov["unproved_clauses_searched"] = [
-        "floating-point round trip |upscale(scale(x)) - x| <= 8u(|x|+|offset|) for every finite value and mode (theorem is over Q)",
-        "every statistic is finite (no NaN from the one-pass variance), stdev^2 within the rounding of the sums of the exact variance",
-        "square root: m_stdev >= 0 and m_stdev^2 ~ clamped variance (sd_ok is a hypothesis of the unit-variance theorem)",
-        "predictions W'x+b' vs upscale_t(W scale_f(x)+b) in long double, tolerance relative to the summed terms",
+        "accuracy of the floating-point statistics w.r.t. the exact ones: mean within 2(N+2)u sum|x|/N, stdev^2 within (8N+16)u sum x^2/(N-1) "
+        "+ 4u sd^2 of the exact variance, (de)normalisers within 2-4 ulp of the exact-rational model (their bit patterns are those of the twin)",
+        "floating-point zero mean, [-1,1] range of mean scaling and unit deviation of standard scaling (exact-arithmetic theorems only)",
+        "predictions W'x+b' vs the LIBRARY's floating-point upscale_t(W scale_f(x)+b) in long double, tolerance 32(C+8)u M (the proved "
+        "prediction bound is against the exact up-scaled model and is checked in the driver)",
+        "the bias of nano::upscale when a no-underflow hypothesis is undecidable from outside (b' = 0 or subnormal): empirical (2C+16)u tolerance",
+        "overflow cases (a finite input whose scaled value overflows is zeroed by nan2zero): outside the hypotheses, not generated",
         "flatten_iterator_t delivers bit-identical values to scalar_stats_t::scale; statistics bit-identical after removing the missing samples"]
+    cov["proved_floating_point_clauses_checked_on_the_implementation"] = [
+        "round trip within (5|x|+4|off|)u(1+3u)+2^-1074(mul+1) (C14_fl_roundtrip*; harness FAIL roundtrip, driver PROPFAIL fl-roundtrip)",
+        "div = 1.0/mul bit for bit (C14_fl_denormalisers; PROPFAIL fl-denorm)",
+        "min-max: [min,max] -> [0,1] exactly, min -> 0, max -> [1-u,1] (C14_fl_minmax; FAIL minmax-range, PROPFAIL fl-minmax)",
+        "no NaN / stdev >= 0 / (de)normalisers > 0 (C14_fl_stats_finite; FAIL stats-finite, PROPFAIL fl-stats-finite)",
+        "bias within g(C+4) M/|tw| (C14_fl_up_bias; PROPFAIL fl-up-bias), weight within g(2) relative (C14_fl_up_weight; PROPFAIL fl-up-weight)",
+        "prediction of the converted model within g(2) sum|W'x| + g(C+4) M/|tw| of the exact up-scaled model (C14_fl_prediction; PROPFAIL fl-prediction)"]
     cov["not_reached"] = ["linear_t::fit / predict wrappers (they call nano::upscale with the same mode for inputs and targets, which the "
                           "harness calls directly)", "non-finite but not NaN inputs (+-inf), magnitudes outside 1e-6..1e6"]
     r.assumptions = ["finite inputs of magnitude 1e-6..1e6 (no overflow to inf inside scale, where nan2zero would zero a finite input)",
